@@ -78,6 +78,19 @@ func TestVerifC12(t *testing.T) {
 			"(resp. Close with the WAL enabled) returned must contain every unit committed before it.")
 }
 
+// C44 (crash part): separated values survive crashes at every point,
+// including inside blob-file rewrites.
+func TestVerifC44Crash(t *testing.T) {
+	k := baseKnobs("C44c")
+	k.ValueSep, k.ForceValueSep, k.MaintHeavy, k.Reopen = true, true, true, true
+	k.Units = 90
+	runCrashDeck(t, "C44", "crash", Options{Prop: "C44", Knobs: k, CloneEvery: 5, PostSyncEvery: 4, Depth: 0, AllowMixed: true}, 14, 300,
+		"Value-separation histories (separation threshold 1-64 bytes, values straddling it, overwrites and deletes producing blob garbage, frequent "+
+			"flushes, compactions and blob-file rewrites, close/reopen) with crash clones at filesystem mutations and right after completed syncs; "+
+			"every clone must open and every value it holds (read through Get and scans, so blob files are fetched) must equal the model state of a "+
+			"legal prefix containing every durable unit.")
+}
+
 // C40: format major version ratchets are monotone, durable and lossless.
 func TestVerifC40(t *testing.T) {
 	k := baseKnobs("C40")
